@@ -142,7 +142,7 @@ func offsetString(offMin int, sep string) string {
 	return fmt.Sprintf("%s%02d%s%02d", sign, offMin/60, sep, offMin%60)
 }
 
-const c19SweepPicture = "[Y0001]|[M01]|[D01]|[d]|[FNn]|[MNn]|[W]|[H01]|[h]|[P]|[m]|[s]|[f001]|[Z]|[z]|[Y]|[M]|[D]|[H]|[D1o]|[MN,*-3]|[Fn,*-3]|[Z0101]|[Z01:01t]|[Y01]|[d001]|[PN]|[h01]|[d1o]|[Mn]|[FN]|[m1]|[s1]|[W01]|[PNn]|[Pn]|[PNn,*-1]|[MNn,*-3]|[FNn,3-3]|[z01:01t]|[z0101t]|[z01:01]"
+const c19SweepPicture = "[Y0001]|[M01]|[D01]|[d]|[FNn]|[MNn]|[W]|[H01]|[h]|[P]|[m]|[s]|[f001]|[Z]|[z]|[Y]|[M]|[D]|[H]|[D1o]|[MN,*-3]|[Fn,*-3]|[Z0101]|[Z01:01t]|[Y01]|[d001]|[PN]|[h01]|[d1o]|[Mn]|[FN]|[m1]|[s1]|[W01]|[PNn]|[Pn]|[PNn,*-1]|[MNn,*-3]|[FNn,3-3]|[z01:01t]|[z0101t]|[z01:01]|[d01]|[Z0]|[Z00]|[z0]|[M1]|[D1]|[H1]|[m01]|[s01]"
 
 // expectedSweep renders the sweep picture from the independent calendar.
 func expectedSweep(ms int64, offMin int) []string {
@@ -167,6 +167,8 @@ func expectedSweep(ms int64, offMin int) []string {
 		strings.ToUpper(p), fmt.Sprintf("%02d", h12), ordinal(c.DOY), strings.ToLower(monthNames[c.M]), strings.ToUpper(dayNames[c.WD]), fmt.Sprint(c.Mi), fmt.Sprint(c.S), fmt.Sprintf("%02d", c.ISOWeek),
 		strings.ToUpper(p[:1]) + p[1:], p, strings.ToUpper(p[:1]), monthNames[c.M][:3], dayNames[c.WD][:3],
 		gmtT(offMin, ":"), gmtT(offMin, ""), "GMT" + offsetString(offMin, ":"),
+		fmt.Sprintf("%02d", c.DOY), shortOffset(offMin, 1), shortOffset(offMin, 2), "GMT" + shortOffset(offMin, 1),
+		fmt.Sprint(c.M), fmt.Sprint(c.D), fmt.Sprint(c.H), fmt.Sprintf("%02d", c.Mi), fmt.Sprintf("%02d", c.S),
 	}
 }
 
@@ -177,6 +179,20 @@ func gmtT(offMin int, sep string) string {
 		return "Z"
 	}
 	return "GMT" + offsetString(offMin, sep)
+}
+
+// shortOffset is the offset in the short layouts [Z0] / [Z00]: sign, hours in
+// at least width digits, and the minutes only when they are not zero.
+func shortOffset(offMin, width int) string {
+	sign, a := "+", offMin
+	if a < 0 {
+		sign, a = "-", -a
+	}
+	s := fmt.Sprintf("%s%0*d", sign, width, a/60)
+	if a%60 != 0 {
+		s += fmt.Sprintf(":%02d", a%60)
+	}
+	return s
 }
 
 func expectedDefault(ms int64, offMin int) string {
@@ -334,7 +350,7 @@ func TestC19_OracleSelfTest(t *testing.T) {
 
 // TestC19_DaySweep: every day (quick: every 7th) from 1000-01-01 to 9999-12-31.
 func TestC19_DaySweep(t *testing.T) {
-	rec := begin(t, "C19", "sweep: every day (quick tier: every 7th day) from 1000-01-01 to 9999-12-31 at a time of day and an offset (-1400..+1400 in 15-minute steps) derived from the day number, plus all 24 hours and boundary milliseconds on every 97th day; 42 markers per instant ([Y0001] [M01] [D01] [d] [FNn] [MNn] [W] [H01] [h] [P] [m] [s] [f001] [Z] [z] [Y] [M] [D] [H] [D1o] [MN,*-3] [Fn,*-3] [Z0101] [Z01:01t] [Y01] [d001] [PN] [h01] [d1o] [Mn] [FN] [m1] [s1] [W01] [PNn] [Pn] [PNn,*-1] [MNn,*-3] [FNn,3-3] [z01:01t] [z0101t] [z01:01]), the default picture, and $toMillis($fromMillis(ms, (), tz)) = ms; oracle = independent proleptic-Gregorian calendar; every instant is non-trivial; distinct by (instant, offset)")
+	rec := begin(t, "C19", "sweep: every day (quick tier: every 7th day) from 1000-01-01 to 9999-12-31 at a time of day and an offset (-1400..+1400 in 15-minute steps) derived from the day number, plus all 24 hours and boundary milliseconds on every 97th day; 51 markers per instant ([d01] [Z0] [Z00] [z0] [M1] [D1] [H1] [m01] [s01][Y0001] [M01] [D01] [d] [FNn] [MNn] [W] [H01] [h] [P] [m] [s] [f001] [Z] [z] [Y] [M] [D] [H] [D1o] [MN,*-3] [Fn,*-3] [Z0101] [Z01:01t] [Y01] [d001] [PN] [h01] [d1o] [Mn] [FN] [m1] [s1] [W01] [PNn] [Pn] [PNn,*-1] [MNn,*-3] [FNn,3-3] [z01:01t] [z0101t] [z01:01]), the default picture, and $toMillis($fromMillis(ms, (), tz)) = ms; oracle = independent proleptic-Gregorian calendar; every instant is non-trivial; distinct by (instant, offset)")
 	defer finish(t, rec)
 	step := int64(stats.Scale(7, 1))
 	shard, nshards := stats.Shard()
